@@ -11,3 +11,11 @@ func dupStdout() int {
 	}
 	return fd
 }
+
+// limitAddressSpace caps the worker's virtual memory so that a runaway allocation in the library
+// ends as a Go "out of memory" fatal error of this worker (attributed to the run in progress) instead
+// of waking the kernel's OOM killer. Not used under the race detector, which reserves a huge range.
+func limitAddressSpace(bytes uint64) {
+	lim := syscall.Rlimit{Cur: bytes, Max: bytes}
+	_ = syscall.Setrlimit(syscall.RLIMIT_AS, &lim)
+}
